@@ -74,6 +74,7 @@ def check_case(sub, case):
         sub.fail("C01|limits|" + kind, case, "limits of %r are (%r, %r), expected (%r, %r)" % (
             description, rng.lower_limit, rng.upper_limit, lower, upper))
     _check_sibling(sub, case, cls, kind, description)
+    _check_default_ignored(sub, case, cls, kind, description, items)
     for probe in list(probes) + list(reversed(probes)):
         expected = member(items, probe)
         sub.evaluations += 1
@@ -96,6 +97,29 @@ def check_case(sub, case):
                      "%r: value %r %s but %s" % (description, probe,
                                                  "accepted" if accepted else "rejected",
                                                  "lies outside every item" if accepted else "lies inside an item"))
+
+
+# the second parameter of Range / DecimalRange: a description to use when the first one is empty; it has no say in
+# what a non-empty description means
+_DEFAULTS = ["0...9", "-1000...1000", "5...", "...5", "1", "-2147483648...2147483647", "...-1, 1..."]
+
+
+def _check_default_ignored(sub, case, cls, kind, description, items):
+    default = case.get("default", _DEFAULTS[(len(description) + len(items)) % len(_DEFAULTS)])
+    sub.evaluations += 1
+    try:
+        rng = cls(description, default)
+    except Exception as error:
+        sub.fail("C01|with-default|construct|%s" % type(error).__name__, dict(case, default=default),
+                 "%r rejected when a default %r is passed along: %s" % (description, default, error))
+        return
+    lower, upper = overall_limits(items)
+    if rng.items is None or sorted(map(_key, rng.items)) != sorted(map(_key, items)) \
+            or rng.lower_limit != lower or rng.upper_limit != upper:
+        sub.fail("C01|with-default|items|" + kind, dict(case, default=default),
+                 "%s(%r, default=%r) has items %r and limits (%r, %r), expected %r and (%r, %r)" % (
+                     cls.__name__, description, default, rng.items, rng.lower_limit, rng.upper_limit, items, lower,
+                     upper))
 
 
 def _check_sibling(sub, case, cls, kind, description):
